@@ -51,8 +51,11 @@ def _locate_vjp(mod):
                 and node.value.func.id == "defvjp":
             c = node.value
             if len(c.args) == 3 and isinstance(c.args[0], ast.Name) and c.args[0].id == "kn" and \
-                    isinstance(c.args[1], ast.Constant) and c.args[1].value is None and isinstance(c.args[2], ast.Lambda):
-                return c.args[2]
+                    isinstance(c.args[1], ast.Constant) and c.args[1].value is None:
+                if isinstance(c.args[2], ast.Lambda):
+                    return c.args[2]
+                if isinstance(c.args[2], ast.Name) and isinstance(mod.toplevel.get(c.args[2].id), ast.FunctionDef):
+                    return mod.toplevel[c.args[2].id]      # vjp maker given as a named module-level function
     return None
 
 
@@ -60,7 +63,8 @@ def _native_vjp(args):
     import autograd
     from pyvc.native import repo_module
     sp = repo_module("pyerrors.special")
-    return args["g"] * autograd.grad(lambda x: sp.kn(args["n"], x))(args["x"])
+    # the cotangent handed to the vjp of kn is g: differentiate g * kn(n, x)
+    return autograd.grad(lambda x: args["g"] * sp.kn(args["n"], x))(args["x"])
 
 
 contract(
@@ -69,7 +73,7 @@ contract(
     requires=lambda a: {"x>0": a.x > 0, "assumed:K(-m)=K(m)": bessel_symmetry(a.x)},
     # d/dx K_n(x) = -(K_{n-1}(x) + K_{n+1}(x)) / 2, with K_{-m} = K_m (assumed: DLMF 10.29.1, 10.27.3)
     ensures=lambda a, r: {"derivative": eq(r, a.g * (-(K(a.n - 1, a.x) + K(a.n + 1, a.x)) / 2))},
-    gen=lambda rng, case: dict(ans=0.0, n=rng.randint(0, 6), x=rng.uniform(0.1, 10), g=rng.choice([1.0, -2.0, 0.5])),
+    gen=lambda rng, case: dict(ans=0.0, n=rng.choice([0, 0, 1, 2, 3, 6]), x=rng.uniform(0.1, 10), g=rng.choice([-2.0, 0.5, 3.0])),
     native_call=_native_vjp, crosscheck=False,
     slice_note="the lambda registered by defvjp(kn, None, <lambda>) at module level; argument 0 (the order) has no derivative (None)",
 )
